@@ -14,7 +14,7 @@ extern unsigned int isal_crypto_get_version(void);
 extern const char *isal_crypto_get_version_str(void);
 extern int __real__aes_self_tests(void), __real__sha_self_tests(void);
 
-enum { W_REAL, W_FAIL_FAST, W_FAIL_AFTER_RUN, W_PASS_FAST };
+enum { W_REAL, W_FAIL_FAST, W_FAIL_AFTER_RUN, W_PASS_FAST, W_FAIL_SHA_ONLY };
 static int wrap_mode, n_aes, n_sha, resolved_before_selftest, in_selftest;
 static int any_slot_resolved(void)
 {
@@ -42,6 +42,7 @@ int __wrap__sha_self_tests(void)
         int r = 0;
         if (wrap_mode == W_REAL) r = __real__sha_self_tests();
         else if (wrap_mode == W_FAIL_AFTER_RUN) __real__sha_self_tests();      /* verdict already failed by the AES part */
+        else if (wrap_mode == W_FAIL_SHA_ONLY) r = 1;                           /* only the second group fails */
         in_selftest = 0;
         return r;
 }
@@ -73,7 +74,7 @@ static void one(entry_t *e, int state, uint64_t c)
         switch (state) {
         case ST_FAILED: asm_set_self_tests_status(1); break;
         case ST_PASSED: asm_set_self_tests_status(0); break;
-        case ST_NOTRUN_FAIL: asm_set_self_tests_status(2); wrap_mode = rng_below(&r, 2) ? W_FAIL_FAST : W_FAIL_AFTER_RUN; break;
+        case ST_NOTRUN_FAIL: asm_set_self_tests_status(2); { uint32_t k = rng_below(&r, 3); wrap_mode = k == 0 ? W_FAIL_FAST : k == 1 ? W_FAIL_AFTER_RUN : W_FAIL_SHA_ONLY; } break;
         case ST_NOTRUN_PASS: asm_set_self_tests_status(2); wrap_mode = rng_below(&r, 4) ? W_PASS_FAST : W_REAL; break;
         }
         disp_rearm_all();
@@ -166,7 +167,7 @@ int main(int argc, char **argv)
                         n_aes = n_sha = 0;
                         int fail = st == ST_FAILED || st == ST_NOTRUN_FAIL;
                         asm_set_self_tests_status(st == ST_FAILED ? 1 : st == ST_PASSED ? 0 : 2);
-                        wrap_mode = st == ST_NOTRUN_FAIL ? W_FAIL_FAST : st == ST_NOTRUN_PASS ? ((c & 3) == 0 ? W_REAL : W_PASS_FAST) : W_REAL;
+                        wrap_mode = st == ST_NOTRUN_FAIL ? ((c & 1) ? W_FAIL_FAST : W_FAIL_SHA_ONLY) : st == ST_NOTRUN_PASS ? ((c & 3) == 0 ? W_REAL : W_PASS_FAST) : W_REAL;
                         disp_rearm_all();
                         LABEL("isal_self_tests state=%s", st_name[st]);
                         int rc = isal_self_tests(), rc2 = isal_self_tests();
